@@ -337,7 +337,7 @@ class Response:
         if status == 413:
             self.close = True
         elif 'Content-Length' not in self.headers:
-            if status < 200 or status in (204, 205, 304):
+            if status < 200 or status in (204, 304):
                 pass
             else:
                 if (
